@@ -103,9 +103,12 @@ func ParseVendorData(packet dhcpv6.DHCPv6) (*VendorData, error) {
 			}
 			vd.VendorName = iana.EnterpriseIDCienaCorporation.String()
 			vd.Model = v[1] + "-" + v[2]
-			duid := packet.(*dhcpv6.Message).Options.ClientID()
-			if enterpriseDUID, ok := duid.(*dhcpv6.DUIDEN); ok {
-				vd.Serial = string(enterpriseDUID.EnterpriseIdentifier)
+			// packet may be a relay message: the client ID is in the
+			// innermost message, if there is one.
+			if msg, err := packet.GetInnerMessage(); err == nil {
+				if enterpriseDUID, ok := msg.Options.ClientID().(*dhcpv6.DUIDEN); ok {
+					vd.Serial = string(enterpriseDUID.EnterpriseIdentifier)
+				}
 			}
 			return &vd, nil
 		}
